@@ -146,3 +146,17 @@ package qr
 //@   loop 1 invariant !res.model[0] && !res.model[1] && res.model[2] && !res.model[3]
 //@   loop 1 invariant forall t int :: 0 <= t && t < qrCCB(vi, 2) ==> res.model[4 + t] == qrBitOf(len(content), qrCCB(vi, 2), t)
 //@   loop 1 invariant forall g int, t int :: 0 <= g && g < idx && 0 <= t && t < 11 ==> res.model[qrHdr(vi, 2) + 11*g + t] == qrBitOf(45 * qrAn(content[2*g]) + qrAn(content[2*g+1]), 11, t)
+
+// ---- automatic mode: the first of numeric, alphanumeric, byte mode that accepts the content;
+// the result is the bit stream of the mode its indicator names
+//@ define qrIsNum(bl *utils.BitList, vi *versionInfo, content string) bool = qrAllDig(content) && !bl.model[0] && !bl.model[1] && !bl.model[2] && bl.model[3] && (forall t int :: 0 <= t && t < qrCCB(vi, 1) ==> bl.model[4 + t] == qrBitOf(len(content), qrCCB(vi, 1), t)) && (forall g int, t int :: 0 <= g && 3*g < len(content) && 0 <= t && t < qrGW(len(content), g) ==> bl.model[qrHdr(vi, 1) + 10*g + t] == qrBitOf(qrGV(bytes(content), len(content), g), qrGW(len(content), g), t))
+//@ define qrIsAn(bl *utils.BitList, vi *versionInfo, content string) bool = qrAllAn(content) && !bl.model[0] && !bl.model[1] && bl.model[2] && !bl.model[3] && (forall t int :: 0 <= t && t < qrCCB(vi, 2) ==> bl.model[4 + t] == qrBitOf(len(content), qrCCB(vi, 2), t)) && (forall g int, t int :: 0 <= g && 2*g < len(content) && 0 <= t && t < qrAW(len(content), g) ==> bl.model[qrHdr(vi, 2) + 11*g + t] == qrBitOf(qrAV(bytes(content), len(content), g), qrAW(len(content), g), t))
+//@ define qrIsByte(bl *utils.BitList, vi *versionInfo, content string) bool = !bl.model[0] && bl.model[1] && !bl.model[2] && !bl.model[3] && (forall t int :: 0 <= t && t < qrCCB(vi, 4) ==> bl.model[4 + t] == qrBitOf(len(content), qrCCB(vi, 4), t)) && (forall k int, t int :: 0 <= k && k < len(content) && 0 <= t && t < 8 ==> bl.model[qrHdr(vi, 4) + 8*k + t] == qrBitOf(content[k], 8, t))
+//@ func encodeAuto
+//@   requires len(content) <= 10000000
+//@   ensures (result2 == nil) == (result0 != nil) && (result2 == nil) == (result1 != nil)
+//@   ensures result2 == nil ==> qrRow(result1) && result1.Level == ecl && result0.count == qrCap(result1) * 8
+//@   ensures result2 == nil ==> (result0.model[3] || result0.model[2] || result0.model[1])
+//@   ensures result2 == nil && result0.model[3] ==> qrIsNum(result0, result1, content)
+//@   ensures result2 == nil && result0.model[2] ==> qrIsAn(result0, result1, content)
+//@   ensures result2 == nil && result0.model[1] ==> qrIsByte(result0, result1, content)
